@@ -342,6 +342,7 @@ package mpt
 //@ requires t != nil
 //@ ensures[refused] len(key) > MaxKeyLength ==> result1 != nil && ncalls(getWithPath) == 0
 //@ ensures[admitted] len(key) <= MaxKeyLength ==> ncalls(getWithPath) == 1
+//@ ensures[own] result1 == nil ==> len(result0) == 0 || fresh(result0)   // a copy: the caller cannot reach the leaf's bytes through it
 //@ func (*Trie).Delete
 //@ may-panic
 //@ opt frame off
